@@ -345,6 +345,8 @@ def _check_inverse(ctx: Ctx) -> None:
     check_no_defaults_on_error(ctx, 'C13.l', [PL, AG], floor=40)
     from ..idioms import check_no_integer_powers_of_inputs
     check_no_integer_powers_of_inputs(ctx, 'C13.m', [PL, AG], floor=10)
+    from ..idioms import check_no_cyclic_resize
+    check_no_cyclic_resize(ctx, 'C13.n', [PL, AG], floor=40)
     ctx.rule('C13.d', 'an offered inverse query is the algebraic inverse of the forward formula, or raises', floor=3)
     base = M.cls('PathLossBase')
     for c in [base] + M.subclasses(base):
